@@ -17,6 +17,8 @@ import (
 // pacing script. Replication offsets follow Redis: the stream byte with
 // 0-based index i has offset O0+1+i; "PSYNC id x" asks for the byte with offset x.
 type Master struct {
+	RejectReconnect string // if set, every PSYNC after the first link is answered with this error text
+	Rejected        int
 	*Server
 	RunID   string
 	O0      int64
@@ -148,6 +150,12 @@ func (m *Master) special(sv *Server, cn *ConnState, args [][]byte) bool {
 	}
 	if !cn.Authed {
 		cn.C.Write(errReply("NOAUTH Authentication required."))
+		return true
+	}
+	if m.RejectReconnect != "" && len(m.Links) > 0 && name == "psync" {
+		// a source that takes the connection back but refuses to continue (it lost its own master link, is loading...)
+		cn.C.Write(errReply(m.RejectReconnect))
+		m.Rejected++
 		return true
 	}
 	l := &Link{ID: len(m.Links), Conn: cn.C, OpenedAt: m.S.Now()}
